@@ -771,7 +771,7 @@ def main(ctx):
     if not ok:
         # a broken theorem / tie must not take the model driver away from the search
         sh(["lake", "build", "model_c04"], cwd=LEAN, timeout=3000)
-    names = ctx.audit("GojaModel.C04.Props", expect_min=40)
+    names = ctx.audit("GojaModel.C04.Props", expect_min=41)
     ctx.audit("GojaModel.C04.PropsArray", expect_min=2)          # rests on lean/GojaModel/C07 (array abstraction)
     if have_tie and ok:
         ctx.audit("GojaModel.C04.Tie", expect_min=1)
